@@ -198,8 +198,7 @@ void profile_blast(RunCtx& ctx)
                 if (ctx.violation("C06", "fault-not-reported-as-diagnostic", "c06b|threw|" + block_sig(b) + "|" + fname + "|" + r.exc_class,
                                   where + ": the load ended in " + r.exc_class + ": " + r.exc_what + " instead of a diagnostic"))
                     return;
-                continue;
-            }
+            } else {
             auto diags = view_diagnostics(*s.doc);
             size_t nerr = 0, in_block = 0;
             bool exact = false;
@@ -248,7 +247,8 @@ void profile_blast(RunCtx& ctx)
                                   where + ": error outside the faulted non-declaring label: " + stray + "; text: " + fr.text))
                     return;
             }
-        }
+                    }
+}
         // ---------------- the same fault in the XTA rendering: C06 for plain-text input ----------------
         // (empty path, line and columns counted in the whole file; the fresh identifier is unique in the text)
         if (ctx.keep(st_doc) && site.fault == TF_UNDECLARED && fr.guaranteed_error && rng.chance(0.3)) {
